@@ -78,6 +78,9 @@ WriteResult BinaryFileWriter::do_write_file()
     chunk_buffer_.reset();
     write_chunk(ChunkType::EndOfFile);
 
+    // a buffered stream only reports a failing device when it is flushed
+    // (e.g. an std::ofstream on a full disk holding less than one buffer of data)
+    ostream_.flush();
     if (ostream_.good()) {
         return WriteResult::Ok;
     } else {
